@@ -503,6 +503,8 @@ func checkC08(c *runCtx) {
 	vtSearch(c, p, vtSpec{Name: "gathering host + srflx, strict census", Model: "gather-strict", Cfg: gatherCfg{Ifaces: gIfacesBasic, NetTypes: []string{"udp4"}, CandTypes: []string{"host", "srflx"}, URLs: []string{stunURL}, Depth: depth}, Deadline: dl, DeathFinding: c08death})
 	vtSearch(c, p, vtSpec{Name: "gathering relay, strict census", Model: "gather-strict", Cfg: gatherCfg{Ifaces: gIfacesBasic, NetTypes: []string{"udp4"}, CandTypes: []string{"relay"}, URLs: []string{turnURL}, Depth: depth}, Deadline: dl, DeathFinding: c08death})
 	vtSearch(c, p, vtSpec{Name: "gathering relay, every socket Close reports an error, strict census", Model: "gather-strict", Cfg: gatherCfg{Ifaces: gIfacesBasic, NetTypes: []string{"udp4"}, CandTypes: []string{"relay"}, URLs: []string{turnURL}, Depth: depth, CloseErr: true}, Deadline: dl, DeathFinding: c08death})
+	vtSearch(c, p, vtSpec{Name: "gathering relay over TLS (turns:), the server accepts the connection and never answers the handshake, strict census", Model: "gather-strict",
+		Cfg: gatherCfg{Ifaces: gIfacesBasic, NetTypes: []string{"udp4", "tcp4"}, CandTypes: []string{"relay"}, URLs: []string{"turns:198.51.100.1:5349?transport=tcp"}, Depth: depth}, Deadline: dl, DeathFinding: c08death})
 	// a passive ICE-TCP candidate (TCPMux) whose peer stops reading: writes block inside the agent's loop
 	vtSearch(c, p, vtSpec{Name: "passive TCP candidate, peer stops reading, close at every position", Model: "tcpclose",
 		Cfg: gatherCfg{Ifaces: gIfacesBasic, NetTypes: []string{"tcp4"}, CandTypes: []string{"host"}, TCPMux: "10.0.0.1:7001", Depth: depth + 2}, Deadline: dl})
